@@ -181,6 +181,10 @@ func (p *Parser) Parse() (al align.Alignment, err error) {
 			names = append(names, name)
 			seqs = append(seqs, seq)
 		} else {
+			if currentnbseqs >= len(names) {
+				err = fmt.Errorf("sequence block nb %d has more sequences than the first block (%d)", nblocks, len(names))
+				return
+			}
 			if names[currentnbseqs] != name {
 				err = fmt.Errorf("name at block %d line %d does not correspond to name in first block (%s vs. %s)", nblocks, currentnbseqs, names[currentnbseqs], name)
 				return
